@@ -1,15 +1,17 @@
 #!/bin/bash
-# usage: tools/seeded_eval.sh <seeded-id> <property>...   -- applies /verif/seeded/<id>/patch.diff to /repo, runs the quick checks, undoes it
+# usage: tools/seeded_eval.sh <seeded-id> <property>...
+# Applies /verif/seeded/<id>/patch.diff to a scratch copy of /repo's HEAD (under /tmp, removed afterwards) and runs the
+# checks against that copy (VERIF_REPO), so that /repo itself and checks running concurrently are not disturbed.
 id=$1; shift
-cd /repo || exit 2
-if ! git diff --quiet; then echo "/repo has uncommitted changes"; exit 2; fi
 p=/verif/seeded/$id/patch.diff
 [ -f /verif/seeded/$id/patch_on_fixed_tree.diff ] && p=/verif/seeded/$id/patch_on_fixed_tree.diff
-if ! git apply $p; then echo "$id: patch does not apply"; exit 2; fi
+scratch=$(mktemp -d /tmp/seeded_${id}_XXXX)
+git -C /repo archive HEAD | tar -x -C "$scratch"
+if ! (cd "$scratch" && patch -s -p1 < "$p"); then echo "$id: patch does not apply"; rm -rf "$scratch"; exit 2; fi
 cd /verif
 for prop in "$@"; do
-  out=$(./check $prop --tier ${TIER:-quick} 2>&1); rc=$?
+  out=$(VERIF_REPO="$scratch" ./check $prop --tier ${TIER:-quick} 2>&1); rc=$?
   echo "[$id] check $prop -> exit $rc"
   echo "$out" | grep -E "^VIOLATION|^INCONCLUSIVE|^OK" | cut -c1-400 | head -5
 done
-git -C /repo checkout -- .
+rm -rf "$scratch"
